@@ -165,7 +165,7 @@ def run(chk):
         "the emulator / hardware realises those operations (external)",
         "sympy's exact simplification decides the matrix identities",
     ]
-    chk.not_covered += ["measure() on the emulator (its tket op cannot be lowered in this sandbox): bound op only", "the qsystem native gates on the emulator (the module does not import under the shim): bindings and wrappers only",
+    chk.not_covered += ["measure() on the emulator (its tket op cannot be lowered in this sandbox): bound op only", 
                         "circuits of more than one library gate on the emulator beyond the preparation layer (composition is matrix multiplication)"]
 
 
